@@ -48,6 +48,8 @@ COMPOSITES = [
     ["pipeline", {}, [["deseason", {"sp": 3, "model": "additive"}], ["detrend", {"degree": 1}]], ["naive", {"strategy": "last"}]],
     ["pipeline", {}, [["log", {}]], ["poly", {"degree": 1}]],
     ["pipeline", {}, [], ["naive", {"strategy": "drift"}]],             # a pipeline that consists of its forecaster only
+    ["pipeline", {}, [["deseason", {"sp": 3, "model": "additive"}]], ["naive", {"strategy": "mean", "window_length": 4}]],
+    ["pipeline", {}, [["cdeseason", {"sp": 4, "model": "additive"}], ["log", {}]], ["poly", {"degree": 1}]],
     ["stack", {"reg": "lin"}, [["naive", {"strategy": "last"}], ["poly", {"degree": 1}]]],
     ["grid", {"grid": {"strategy": ["last", "mean"]}, "cv": ["sliding", {"fh": [1], "window_length": 8, "step_length": 4}], "scoring": None}, ["naive", {}]],
     ["online", {}, [["naive", {"strategy": "last"}], ["naive", {"strategy": "mean", "window_length": 3}]]],
@@ -79,6 +81,9 @@ def cases(tier, seed):
                             bool(rng.random() < 0.5), [None, None, [0, 1], [-1, 1, 2], [-1, 0]][int(rng.integers(0, 5))]])
             else:
                 ops.append(["ups", int(rng.integers(1, 4)), bool(rng.random() < 0.5)])
+        if i % 8 == 5:
+            # only parameter-updating updates, most of them restating the last one or two known points (batching-invariance histories)
+            ops = [["update", int(rng.integers(2, 6)), int(rng.integers(0, 3)), True] for _ in range(int(rng.integers(2, 5)))]
         yield {"spec": spec, "fh": fh, "fh_in": ["fit", "predict", "never"][int(rng.integers(0, 3))], "n0": int(rng.integers(zoo.min_length(spec) + 6, zoo.min_length(spec) + 24)),
                "off": int(rng.choice([0, 3, -12, 700])), "ops": ops, "series": ["seasonal", "walk"][int(rng.integers(0, 2))], "dseed": int(rng.integers(0, 2 ** 31))}
 
@@ -415,6 +420,36 @@ def run_case(case, ctx):
                 check_state("after update_predict #%d" % k) if f.cutoff == cutoff else None
             desync = True   # the moving-cutoff run advanced nested members; only the outer cutoff is restored
             fh = fh_outer
+    # ---- how the new observations were cut into batches does not matter: a history of parameter-updating updates (batches that may restate
+    # the last known points) ends where ONE update with everything that was given ends ---------------------------------------------------
+    # (not for pipelines whose transformers re-estimate their parameters on update - the detrender: by design each batch is transformed under the
+    # trend known at that time, so the forecaster's remembered series depends on the batching)
+    def _reestimating_step(sp_):
+        if sp_[0] == "pipeline" and any((t[2] if t[0] == "optional" else t)[0] == "detrend" for t in sp_[2]):
+            return True
+        return any(_reestimating_step(c) for c in zoo.children(sp_))
+    upd_ops = [op for op in case["ops"] if op[0] == "update"]
+    if len(upd_ops) >= 2 and len(upd_ops) == len(case["ops"]) and all(op[3] for op in upd_ops) and (fh_known or not need_fit) and not _reestimating_step(spec):
+        start = min([int(y0.index[-1]) + 1] + [t for t in mem if t > int(y0.index[-1])])
+        lo_ = int(y0.index[-1]) + 1 - max(min(op[2], 2) for op in upd_ops)
+        ts_ = [t for t in sorted(mem) if t >= lo_]
+        one = pd.Series([mem[t] for t in ts_], index=pd.RangeIndex(ts_[0], ts_[-1] + 1))
+        g = zoo.build(spec)
+        try:
+            g.fit(y0.copy(), fh=fh if fh_in == "fit" else None)
+            g.update(one.copy(), update_params=True)
+            pg = g.predict(fh if not need_fit else None)
+        except Exception as e:  # noqa
+            pg = None
+            ctx.tag("one-batch-twin-failed:" + type(e).__name__)
+        if pg is not None:
+            okp, pf_ = ctx.call("predict:exception:" + spec[0], f.predict, fh if not need_fit else None)
+            if okp:
+                ctx.check("refit-equivalence", [int(v) for v in pf_.index] == [int(v) for v in pg.index] and _same(pf_.values, pg.values),
+                          "update:result-depends-on-how-the-observations-were-cut-into-batches:" + spec[0],
+                          "parameter-updating updates in several (overlapping) batches forecast differently from one update with the same observations",
+                          batches=[[op[1], op[2]] for op in upd_ops], got=pf_.values.tolist()[:4], expected=pg.values.tolist()[:4])
+                ctx.tag("batching-invariance-compared")
     # ---- a horizon given as absolute time points stays at those time points while the cutoff moves under updates -----------------
     if case["dseed"] % 4 == 2:
         from sktime.forecasting.base import ForecastingHorizon
